@@ -28,6 +28,21 @@ ERRNAMES = {
 }
 
 # value classes for user attributes: id -> representatives that are all == to each other
+class _Any:
+    """a sought value whose __eq__ accepts everything (like unittest.mock.ANY)"""
+
+    def __eq__(self, other):
+        return True
+
+    def __ne__(self, other):
+        return False
+
+    __hash__ = object.__hash__
+
+    def __repr__(self):
+        return "ANY"
+
+
 VALREPS = {
     0: [0, 0.0, False],
     1: [1, 1.0, True],
@@ -35,6 +50,7 @@ VALREPS = {
     3: ["x", "".join(["x"])],
     4: [(1, 2), tuple([1, 2])],
     5: [None],
+    6: [_Any()],       # only ever used as a SOUGHT value
 }
 
 
